@@ -25,7 +25,7 @@ from .clicommon import run_cli
 
 OPS = ["compare", "compare_again", "field_comparator", "sort", "sort_points", "sort_cells", "strip", "merge", "extend",
        "diff", "write", "to_meshio", "to_meshio", "from_meshio_roundtrip", "equals", "predicate_reuse", "structured_access",
-       "dynamic_tolerance_reuse", "sequence_reuse"]
+       "dynamic_tolerance_reuse", "sequence_reuse", "merge_one_sided"]
 
 
 def snapshot(arrays):
@@ -185,6 +185,25 @@ def run_history(ctx, rng, idx):
                             list(a_less.diff_to(a))
                         except RuntimeError:
                             pass
+                    elif op == "merge_one_sided":
+                        # a point field that only the first operand carries: the merged field is the same on every repetition
+                        pts_, conn_, pd_, cd_ = a._verif_parts
+                        extra_f = MeshFields(a.domain, dict({k: v for k, v in pd_.items()}, only_here=np.arange(float(len(pts_))) + 1.0), cd_)
+                        shifted_pts = np.asarray(b.domain.points) + 1000.0
+                        from fieldcompare.mesh import Mesh as _Mesh
+                        other = MeshFields(_Mesh(shifted_pts, [(ct, np.asarray(b.domain.connectivity(ct))) for ct in b.domain.cell_types]),
+                                           {f.name: np.asarray(f.values) for f in b.point_fields},
+                                           {nm: [np.asarray(f.values) for f, _ in b.cell_fields_types if f.name.rsplit(" @ ", 1)[0] == nm]
+                                            for nm in {f.name.rsplit(" @ ", 1)[0] for f, _ in b.cell_fields_types}})
+                        runs = []
+                        for _rep in range(3):
+                            junk = [np.full(64, 7.5 + _rep) for _ in range(8)]      # (churn the allocator between the repetitions)
+                            del junk
+                            mg = merge(extra_f, other)
+                            runs.append(np.array(next(f.values for f in mg.point_fields if f.name == "only_here"), dtype=float))
+                        if not all(np.array_equal(runs[0], r, equal_nan=True) for r in runs[1:]):
+                            ctx.violation("E4", "merging the same two data sets repeatedly gives different values for a point field that only "
+                                                "the first one carries", canon, executed=executed + [op])
                     elif op == "write":
                         expect_new = [] if os.path.exists(os.path.join(work, "out_a.vtu")) else ["out_a.vtu"]
                         write(sort(a), os.path.join(work, "out_a"))
@@ -281,6 +300,17 @@ def run_history(ctx, rng, idx):
                         meshio_utils.to_meshio(f)
                         if not (np.array_equal(p1, im.points) and np.array_equal(c1, im.connectivity(CellTypes.pixel))):
                             ctx.violation("E4", "points/connectivity of a structured mesh change after use", canon, executed=executed + [op])
+                        # tolerances set on a structured mesh AFTER it has taken part in a comparison count from then on: the repeated
+                        # comparison answers like a fresh pair of meshes with those tolerances
+                        g1 = ImageMesh((2, 1, 0), (0.0, 0.0, 0.0), (1.0, 1.0, 1.0))
+                        g2 = ImageMesh((2, 1, 0), (1e-3, 0.0, 0.0), (1.0, 1.0, 1.0))
+                        first_ans = bool(g1.equals(g2))
+                        g1.set_tolerances(abs_tol=0.5, rel_tol=0.0)
+                        fresh = ImageMesh((2, 1, 0), (0.0, 0.0, 0.0), (1.0, 1.0, 1.0))
+                        fresh.set_tolerances(abs_tol=0.5, rel_tol=0.0)
+                        if first_ans or bool(g1.equals(g2)) != bool(fresh.equals(g2)):
+                            ctx.violation("E4", "an image mesh that was compared once ignores tolerances set afterwards (a fresh mesh with the same "
+                                                "tolerances answers differently)", canon, executed=executed + [op])
                         # reading a ROTATED image grid in between does not turn other image grids: one made before (its points not
                         # asked for yet) and one made afterwards still lie along the coordinate axes
                         from . import vtkenc as V_
@@ -322,7 +352,7 @@ def run_history(ctx, rng, idx):
                     ragged = any(len({len(r) for r in rows}) > 1 for X in (M, N) for _, rows in X["blocks"])
                     if op in ("to_meshio", "from_meshio_roundtrip") and ragged:
                         ctx.count("meshio conversion refused polygons with differing corner counts (meshio limitation)")
-                    elif cols != "none" and op in ("merge", "diff") and "number of dimensions" in str(e):
+                    elif cols != "none" and op in ("merge", "diff", "merge_one_sided") and "number of dimensions" in str(e):
                         ctx.count(f"{op} refused scalar fields stored as (n,) on one side and (n, 1) on the other (no side effect)")
                     elif "read-only" in str(e):
                         ctx.violation("E4", f"operation '{op}' tries to write into an array of the data sets it was given "
